@@ -36,7 +36,7 @@ pub fn stable_hash<E: Entry>(bytes: &[u8]) -> u64 {
 }
 
 pub fn within(p: *const u8, len: usize, input: &[u8]) -> bool {
-    if len == 0 { return true }
+    // an empty slice still has an address: it must lie inside the input (or one past its end), not in a static
     let a = input.as_ptr() as usize;
     let s = p as usize;
     s >= a && s + len <= a + input.len()
@@ -189,12 +189,21 @@ owned!(EArrOpt3, "[Option<u16>;3]", [Option<u16>; 3], INDEF_OK = true);
 owned!(EArrStr2, "[String;2]", [String; 2], INDEF_OK = true);
 owned!(EArr32, "[u8;32]", [u8; 32], INDEF_OK = true);
 owned!(EArrVec2, "[Vec<u8>;2]", [Vec<u8>; 2], INDEF_OK = true);
+owned!(EArr23, "[u16;23]", [u16; 23], INDEF_OK = true);
+owned!(EArr24, "[bool;24]", [bool; 24], INDEF_OK = true);
+owned!(EArr25, "[String;25]", [String; 25], INDEF_OK = true);
+owned!(EArr256, "[u8;256]", [u8; 256], INDEF_OK = true);
 owned!(EVecU8, "Vec<u8>", Vec<u8>, INDEF_OK = true);
 owned!(EVecU64, "Vec<u64>", Vec<u64>, INDEF_OK = true);
 owned!(EVecString, "Vec<String>", Vec<String>, INDEF_OK = true);
 owned!(EVecOptTuple, "Vec<Option<(u8,String)>>", Vec<Option<(u8, String)>>);
 owned!(EVecVecI32, "Vec<Vec<i32>>", Vec<Vec<i32>>, INDEF_OK = true);
 owned!(EVecF64, "Vec<f64>", Vec<f64>, INDEF_OK = true);
+// zero-sized element types
+owned!(EVecUnit, "Vec<()>", Vec<()>);
+owned!(EVecArr0, "Vec<[u8;0]>", Vec<[u8; 0]>, INDEF_OK = true);
+owned!(EVecPhantom, "Vec<PhantomData<u8>>", Vec<std::marker::PhantomData<u8>>);
+owned!(ELinkedUnit, "LinkedList<()>", LinkedList<()>);
 
 /// Build a deque holding `xs` in order with a chosen *physical* layout of the ring buffer (`Clone` and `collect`
 /// always yield a contiguous buffer, which would leave the wrapped-around case of the Encode impl unexercised).
@@ -219,11 +228,12 @@ pub fn deque_with_layout<T: Clone>(xs: &[T], k: usize, mode: u8) -> VecDeque<T> 
 }
 
 macro_rules! deque_entry {
-    ($id:ident, $name:expr, $t:ty) => {
+    ($id:ident, $name:expr, $t:ty) => { deque_entry!($id, $name, $t, true); };
+    ($id:ident, $name:expr, $t:ty, $indef:expr) => {
         pub struct $id;
         impl Entry for $id {
             const NAME: &'static str = $name;
-            const INDEF_OK: bool = true;
+            const INDEF_OK: bool = $indef;
             type Seed = (Vec<$t>, usize, u8);
             type Val<'a> = VecDeque<$t>;
             fn seed(g: &mut Gen) -> Self::Seed { let v = <Vec<$t> as Arb>::arb(g); let k = g.below(v.len() + 1); (v, k, g.below(3) as u8) }
@@ -236,6 +246,8 @@ macro_rules! deque_entry {
 }
 deque_entry!(EVecDequeI16, "VecDeque<i16>", i16);
 deque_entry!(EVecDequeString, "VecDeque<String>", String);
+// (unit is the *definite* empty array: not re-framed as indefinite)
+deque_entry!(EVecDequeUnit, "VecDeque<()>", (), false);
 owned!(ELinkedListU32, "LinkedList<u32>", LinkedList<u32>, INDEF_OK = true);
 owned!(EBinaryHeapU16, "BinaryHeap<u16>", BinaryHeap<u16>, UNORDERED = true, INDEF_OK = true);
 owned!(EBTreeSetI64, "BTreeSet<i64>", BTreeSet<i64>, INDEF_OK = true);
@@ -456,8 +468,8 @@ macro_rules! for_each_entry {
             $mac!(ECString), $mac!(ERefCStr), $mac!(EPathBuf), $mac!(ERefPath), $mac!(EBoxPath),
             $mac!(EOptU8), $mac!(EOptString), $mac!(EOptVecU8), $mac!(EOptTuple), $mac!(EResU8String), $mac!(EResIntByteVec), $mac!(EBoxU64), $mac!(EBoxVecU16),
             $mac!(EUnit), $mac!(EPhantom), $mac!(ETuple1), $mac!(ETuple2), $mac!(ETuple3), $mac!(ETuple4), $mac!(ETuple5), $mac!(ETuple6), $mac!(ETuple7), $mac!(ETuple8), $mac!(ETuple9), $mac!(ETuple10), $mac!(ETuple11), $mac!(ETuple12), $mac!(ETuple13), $mac!(ETuple14), $mac!(ETuple15), $mac!(ETuple16),
-            $mac!(EArr0), $mac!(EArr1), $mac!(EArr3), $mac!(EArrOpt3), $mac!(EArrStr2), $mac!(EArr32), $mac!(EArrVec2),
-            $mac!(EVecU8), $mac!(EVecU64), $mac!(EVecString), $mac!(EVecOptTuple), $mac!(EVecVecI32), $mac!(EVecF64),
+            $mac!(EArr0), $mac!(EArr1), $mac!(EArr3), $mac!(EArrOpt3), $mac!(EArrStr2), $mac!(EArr32), $mac!(EArrVec2), $mac!(EArr23), $mac!(EArr24), $mac!(EArr25), $mac!(EArr256),
+            $mac!(EVecU8), $mac!(EVecU64), $mac!(EVecString), $mac!(EVecOptTuple), $mac!(EVecVecI32), $mac!(EVecF64), $mac!(EVecUnit), $mac!(EVecArr0), $mac!(EVecPhantom), $mac!(ELinkedUnit), $mac!(EVecDequeUnit),
             $mac!(EVecDequeI16), $mac!(EVecDequeString), $mac!(ELinkedListU32), $mac!(EBinaryHeapU16), $mac!(EBTreeSetI64), $mac!(EHashSetU16), $mac!(EHashSetString),
             $mac!(EBTreeMapU8U8), $mac!(EBTreeMapStrVec), $mac!(EHashMapU32Str), $mac!(EHashMapStrOptBool),
             $mac!(ERange), $mac!(ERangeFrom), $mac!(ERangeTo), $mac!(ERangeToIncl), $mac!(ERangeIncl), $mac!(EBound),
